@@ -271,6 +271,20 @@ def gen_merge_doc(rng):
     return "{%s}" % ", ".join(parts)
 
 
+def gen_aliased_container_doc(rng):
+    """A flow mapping in which one Hash / Array is anchored and aliased under another key: ONE object at two paths,
+    with members named like their own container (so that a deep traversal matches the container and a member)."""
+    k = rng.choice(["cfg", "a", "opts"])
+    inner = rng.choice(["{%s: 1, other: 2}" % k, "{%s: [1, 2], x: {%s: 3}}" % (k, k), "[%s, b, {%s: 1}]" % (k, k), "{other: 2, %s: {q: 1}}" % k])
+    name = "SH%d" % rng.randrange(1000)
+    parts = ["top: {%s: &%s %s, z: 1}" % (k, name, inner), "keep: *%s" % name]
+    if rng.random() < 0.5:
+        parts.append("also: {w: *%s}" % name)
+    if rng.random() < 0.5:
+        parts.insert(rng.randrange(len(parts) + 1), "%s: plain" % k)
+    return "{%s}" % ", ".join(parts)
+
+
 def deep_doc(depth, kind="map"):
     s = "x"
     for i in range(depth):
